@@ -119,7 +119,10 @@ if getattr(vlib.known_findings, "__name__", "") != "_known":
 TRACE_CFG = "SPECIFICATION TraceSpec\nINVARIANT Done\n"
 
 
-def build(ctx, hook_pkgs=()):
+FUNC_HOOKS = [("serf", "serf_func"), ("coordinate", "coordinate_func")]   # accessors used by the C20 mode of the driver
+
+
+def build(ctx, hook_pkgs=FUNC_HOOKS):
     ov = vlib.overlay_for(ctx, hook_pkgs=list(hook_pkgs)) if hook_pkgs else None
     return vlib.go_build(ctx, "func", overlay=ov)
 
@@ -440,18 +443,18 @@ def run_c20(ctx, replay):
         scheds = [json.load(open(replay))["schedule"]]
     else:
         depth = 5 if ctx.thorough() else 4
-        mc = vlib.tlc(ctx, "Coord", "CONSTANT NP = %d\nCONSTANT MaxSteps = %d\nINIT Init\nNEXT Next\nINVARIANT C20\n" % (np_, depth), workers=4)
+        mc = vlib.tlc(ctx, "Coord", "CONSTANT NP = %d\nCONSTANT MaxSteps = %d\nCONSTANT WinSize = 3\nINIT Init\nNEXT Next\nINVARIANT C20\n" % (np_, depth), workers=4)
         if mc.violated:
             raise vlib.Inconclusive("the model violates its own monitor %s -- spec error, no verdict" % mc.violated)
         num, sdepth = (4000, 12) if ctx.thorough() else (500, 8)
-        _, scheds = vlib.simulate_schedules(ctx, "Gen_Coord", "CONSTANT NP = %d\nCONSTANT MaxSteps = 100000\nINIT GenInit\nNEXT GenNext\n" % np_,
+        _, scheds = vlib.simulate_schedules(ctx, "Gen_Coord", "CONSTANT NP = %d\nCONSTANT MaxSteps = 100000\nCONSTANT WinSize = 3\nINIT GenInit\nNEXT GenNext\n" % np_,
                                             num, sdepth)
         import random
         rng = random.Random(ctx.seed * 7919 + 13)
         for s in scheds:           # which adversarial float of the class: a concretization parameter, part of the schedule
             for st in s:
                 st["fv"], st["rv"] = rng.randrange(0, 960), rng.randrange(0, 12)
-    tcfg = TRACE_CFG + "CONSTANT NP = %d\nCONSTANT MaxSteps = 100000\n" % np_
+    tcfg = TRACE_CFG + "CONSTANT NP = %d\nCONSTANT MaxSteps = 100000\nCONSTANT WinSize = 3\n" % np_
     tp = execute(ctx, binary, "coord", scheds, "c")
     rep = vlib.validate(ctx, "Trace_Coord", tcfg, tp)
 
